@@ -298,5 +298,5 @@ MANIFEST_ENTRY = {
     "With no writes, any interleaving of calls equals fresh evaluation - a statement about all call histories, which no test sequence can give. The two removal "
     "rules are decided structurally.",
     "note": "Trusted: cached_property only fills its own slot; external libraries do not write BpSeq state. The equality 'pairs written with round brackets' leans on C01/C02.",
-    "technique": "static analysis: interprocedural effect and may-alias analysis (container freshness vs element sharing) over the ast",
+    "technique": "static analysis: interprocedural effect and may-alias analysis (container freshness vs element sharing) over the ast + truth tables over finite partitions (removal rules on every set of pairs over <= 6 residues; every ordered pair of queries on one object vs a fresh copy), fragments interpreted from the ast",
 }
